@@ -3,6 +3,7 @@ import copy
 
 from .. import gen, refcodec as rc
 from ..world import World, payload
+from ..preempt import call_preempted
 from . import common
 
 ID = 'C02'
@@ -11,8 +12,8 @@ BUDGET = {'quick': (12000, 80.0), 'thorough': (200000, 1500.0)}
 RULE = ('seeded swarm generation of 2-3 real J1939-22 stacks; per originator 1-8 RTS/CTS and 0-4 BAM messages (61..20000 bytes) '
         'submitted within a short window, one or both directions, plus send_pgn calls beyond capacity while sessions are in flight, and in some runs send_pgn calls made from inside the stack\'s own k-th transmission; '
         'non-trivial = at least one FD transport session ran; distinct = distinct scenario JSON')
-FAULT_COUNTERS = {"application send_pgn from inside the stack's own transmission": 'reentrant_submissions', 'send_pgn beyond capacity (refused)': 'refused_at_capacity', 'traffic in both directions (runs)': 'bidirectional_runs'}
-REQUIRED_PROBES = ['cmdt_msgs', 'bam_msgs', 'refused_at_capacity', 'bidirectional_runs', 'len_mod60_zero', 'reentrant_submissions']
+FAULT_COUNTERS = {'application thread parked at a source line inside send_pgn (pre-emption)': 'preempted_calls', "application send_pgn from inside the stack's own transmission": 'reentrant_submissions', 'send_pgn beyond capacity (refused)': 'refused_at_capacity', 'traffic in both directions (runs)': 'bidirectional_runs'}
+REQUIRED_PROBES = ['cmdt_msgs', 'bam_msgs', 'refused_at_capacity', 'bidirectional_runs', 'len_mod60_zero', 'reentrant_submissions', 'preempted_calls']
 DLL = 'j1939-22'
 CAP = {'cmdt': 8, 'bam': 4}
 
@@ -90,6 +91,11 @@ def generate(rng, tier, i):
         for m in rng.sample([x for x in scn['msgs'] if x.get('on_ack_of') is None], min(len([x for x in scn['msgs'] if x.get('on_ack_of') is None]), rng.randint(1, 3))):
             if m is not scn['msgs'][0]:
                 m['on_tx'] = rng.choice([1, 2, 3, 4, 5, 6, 8, 10, rng.randrange(1, 40), 'eoms', 'eoms', 'last_dt'])
+    # pre-emption of the application thread inside send_pgn: parked at its k-th library source line for a while
+    if rng.random() < 0.25:
+        plain = [m for m in scn['msgs'] if m.get('on_tx') is None and m.get('on_ack_of') is None]
+        for m in rng.sample(plain, min(len(plain), rng.randint(1, 3))):
+            m['pre'] = {'k': rng.randint(1, 90), 'hold_us': rng.choice([20, 300, 3000, 15000])}
     return scn
 
 
@@ -97,7 +103,7 @@ def snapshot(st):
     d = st.dll()
     return (sorted((k, b.get('state'), b.get('next_packet_to_send'), b.get('deadline')) for k, b in d._snd_buffer.items()),
             sorted((k, len(b.get('data', []))) for k, b in d._rcv_buffer.items()),
-            list(getattr(d, '_J1939_22__bam_session_list')), list(getattr(d, '_J1939_22__rts_cts_session_list')))
+            list(getattr(d, '_J1939_22__bam_session_list', None) or []), list(getattr(d, '_J1939_22__rts_cts_session_list', None) or []))
 
 
 def execute(scn, keep_log=False, hook=None):
@@ -106,7 +112,7 @@ def execute(scn, keep_log=False, hook=None):
     bus = w.bus
     exp, extra, meta = common.Counter(), common.Counter(), {}
     viol = []
-    stats = {'cmdt_msgs': 0, 'bam_msgs': 0, 'refused_at_capacity': 0, 'len_mod60_zero': 0, 'reentrant_submissions': 0, 'submitted_from_ack_callback': 0,
+    stats = {'cmdt_msgs': 0, 'bam_msgs': 0, 'refused_at_capacity': 0, 'len_mod60_zero': 0, 'reentrant_submissions': 0, 'submitted_from_ack_callback': 0, 'preempted_calls': 0,
              'bidirectional_runs': int(len({m['stack'] for m in scn['msgs']}) > 1)}
     states = set()
     t0 = sim.now
@@ -152,9 +158,27 @@ def execute(scn, keep_log=False, hook=None):
         rec0 = {'kind': mode, 'sa': sa0, 'da': common.msg_dest(m), 'size': m['len'], 'done': None}
         inflight[m['stack']].append(rec0)
         nested_before = stats['reentrant_submissions']
-        ok = st.cas[m['ca']].send_pgn(m['dp'], m['pf'], m['ps'], m['prio'], list(data))
+        pre = m.get('pre') if sim.current is None and not held[0] else None
+        if pre:
+            # the application thread is parked at its k-th source line inside send_pgn; job threads and reception run on, further
+            # application-level submissions (nested, from the acknowledge callback) wait until this call has returned
+            held[0] += 1
+        try:
+            ok, tr = call_preempted(sim, (lambda: st.cas[m['ca']].send_pgn(m['dp'], m['pf'], m['ps'], m['prio'], list(data))), pre)
+        finally:
+            if pre:
+                held[0] -= 1
+        was_held = tr is not None and tr.fired > 0
+        if was_held:
+            stats['preempted_calls'] += 1
+            # sessions that ended while the call was held are free
+            sure = sum(1 for r in inflight[m['stack']] if r is not rec0 and r['kind'] == mode and r['done'] is None)
         if ok is not True:
             inflight[m['stack']].remove(rec0)
+        if pre:
+            for later in list(deferred):
+                deferred.remove(later)
+                later()
         nested_inside = stats['reentrant_submissions'] != nested_before
         if m['len'] % 60 == 0:
             stats['len_mod60_zero'] += 1
@@ -175,6 +199,8 @@ def execute(scn, keep_log=False, hook=None):
                          'msg': 'send_pgn refused a %s message although at most %d of %d sessions can be in use' % (mode, maybe, CAP[mode])})
         else:
             stats['refused_at_capacity'] += 1
+        if was_held:
+            return          # frames and tables legitimately moved on while the call was held
         if len(bus.frames) + len(bus.suppressed) != before_frames:
             viol.append({'clause': 'refused-call-emitted-frames', 'rank': 1, 'feat': {'mode': mode},
                          'msg': 'a refused send_pgn put %d frame(s) on the bus' % (len(bus.frames) + len(bus.suppressed) - before_frames)})
@@ -185,12 +211,14 @@ def execute(scn, keep_log=False, hook=None):
     base = sim.now
     txcount = {}
     nest = [0]
+    held = [0]
+    deferred = []
     pending_on_tx = [m for m in scn['msgs'] if m.get('on_tx') is not None]
 
     def on_tx(fr):
         k = txcount.get(fr.src, 0)
         txcount[fr.src] = k + 1
-        if nest[0]:
+        if nest[0] or held[0]:
             return
         i = rc.Id(fr.can_id)
         kind = None
@@ -219,7 +247,10 @@ def execute(scn, keep_log=False, hook=None):
             if stack == src['stack'] and lid == 'ca%d' % src['ca'] and sa == src['ps'] and pgn == rc.sae_pgn(src['dp'], src['pf'], src['ps']) and rc.le24(d, 1) == src['len']:
                 pending_on_ack.remove(m)
                 stats['submitted_from_ack_callback'] += 1
-                submit(m)
+                if held[0]:
+                    deferred.append(lambda m=m: submit(m))
+                else:
+                    submit(m)
     w.delivery_hooks.append(on_delivery)
     for m in scn['msgs']:
         if m.get('on_tx') is None and m.get('on_ack_of') is None:
